@@ -82,11 +82,12 @@ class HandlerPolicy(Policy):
     max_cfgs = 50000
     emit_setitem = True
 
-    def __init__(self, program: Program, rel="eval.py", raise_at_eval=False, stmt_markers=MARKERS,
+    def __init__(self, program: Program, rel="eval.py", raise_at_eval=False, raise_at_call=False, stmt_markers=MARKERS,
                  opaque_methods=("call_func", "log_exception", "get_names", "ast_attribute_collapse", "loopvar_scope_save", "loopvar_scope_restore")):
         super().__init__(program)
         self.rel = rel
         self.raise_at_eval = raise_at_eval
+        self.raise_at_call = raise_at_call
         self.stmt_markers = stmt_markers
         self.opaque_methods = set(opaque_methods)
         self.module = program.module(rel)
@@ -97,6 +98,15 @@ class HandlerPolicy(Policy):
                 cs = const_set(s.value)
                 if cs is not None:
                     self.mod_consts[s.targets[0].id] = Const(frozenset(cs))
+                elif isinstance(s.value, ast.Dict) and all(k is not None for k in s.value.keys):
+                    # module level lookup table (e.g. operator tables keyed by ast classes)
+                    sub = Interp(Policy(program), rel)
+                    try:
+                        r = sub.ev(s.value, Cfg(), Out())
+                    except AnalysisError:
+                        r = []
+                    if len(r) == 1:
+                        self.mod_consts[s.targets[0].id] = r[0][1]
 
     # -- names -----------------------------------------------------------
     def global_name(self, name, interp):
@@ -135,8 +145,17 @@ class HandlerPolicy(Policy):
                 cfg = cfg.emit(("call", label, tuple(args), tuple(kwargs.items())))
                 return [(cfg, App("res", (Const(label), *args)))]
         if isinstance(fval, FuncV) and fval.name.split(".")[-1] in self.opaque_methods:
-            cfg = cfg.emit(("call", fval.name.split(".")[-1], tuple(args), tuple(kwargs.items())))
-            return [(cfg, App("res", (Const(fval.name.split(".")[-1]), *args)))]
+            short = fval.name.split(".")[-1]
+            cfg = cfg.emit(("call", short, tuple(args), tuple(kwargs.items())))
+            if short == "call_func" and self.raise_at_call and args:
+                out.add("raise", cfg.set("$exc", ExcV("Exception", f"call {args[0]!r}")))
+            return [(cfg, App("res", (Const(short), *args)))]
+        if fname == "sys.exc_info":
+            return [(cfg, App("excinfo", ()))]
+        if isinstance(fval, Sym) and fval.tag[0] == "g" and fval.tag[1].startswith("operator.") and not kwargs:
+            op = OPERATOR_FUNCS.get(fval.tag[1][9:])
+            if op is not None:
+                return [(cfg, App(op, tuple(args)))]
         # ast.X(...) constructors build schematic nodes
         if fname and fname.startswith("ast.") and hasattr(ast, fname[4:]) and isinstance(getattr(ast, fname[4:]), type):
             cls = getattr(ast, fname[4:])
@@ -181,7 +200,7 @@ class HandlerPolicy(Policy):
         return ()
 
     def on_store_attr(self, interp, base, attr, val, cfg, node):
-        if isinstance(base, NodeV):
+        if isinstance(base, NodeV) and base.fields.get("$copy") is None:
             return cfg.emit(("ast_mutation", base.path, attr, getattr(node, "lineno", 0)))
         return cfg
 
@@ -223,6 +242,16 @@ class HandlerPolicy(Policy):
             return True
         return None
 
+
+OPERATOR_FUNCS = {
+    "add": "add", "sub": "sub", "mul": "mult", "matmul": "matmult", "truediv": "div", "mod": "mod", "pow": "pow",
+    "lshift": "lshift", "rshift": "rshift", "or_": "bitor", "xor": "bitxor", "and_": "bitand", "floordiv": "floordiv",
+    "iadd": "iadd", "isub": "isub", "imul": "imult", "imatmul": "imatmult", "itruediv": "idiv", "imod": "imod",
+    "ipow": "ipow", "ilshift": "ilshift", "irshift": "irshift", "ior": "ibitor", "ixor": "ibitxor", "iand": "ibitand",
+    "ifloordiv": "ifloordiv", "not_": "not", "neg": "usub", "pos": "uadd", "invert": "invert",
+    "eq": "eq", "ne": "noteq", "lt": "lt", "le": "lte", "gt": "gt", "ge": "gte", "is_": "is", "is_not": "isnot",
+    "contains": "contains", "getitem": "getitem",
+}
 
 PURE_BUILTINS = {
     "slice", "tuple", "str", "set", "list", "repr", "ascii", "format", "iter", "reversed", "id", "hex", "sorted",
